@@ -97,8 +97,8 @@ def gen(rng, tier):
     # the same RELATIVE name read again after the process has changed its working directory (the two directories hold
     # different files of that name: well-formed ones, and malformed ones at different lines): each read answers for the
     # file the name denotes NOW - code, error location (absolute name of that file, its line) and no object - exactly as
-    # the read of that file by its absolute name does right afterwards (the model has no working directory: the
-    # comparison is between the two reads of the implementation)
+    # the read of that file by its absolute name does right afterwards (compared with the model, which follows chdir
+    # through CwdModel.respell, and - independently of that - the two reads of the implementation with each other)
     def body(j):
         ls = [b"k%d=%d" % (i, i) for i in range(rng.randrange(0, 6))]
         r = rng.random()
@@ -117,7 +117,7 @@ def gen(rng, tier):
             dl = rng.choice(["x3d x23", "x3d x23", "x3a x3b"])
             pairs.append((len(cmds), len(cmds) + 3))
             cmds += ["readfile 0 %s %s" % (enc(nm), dl), "errloc", "dump 0", "readfile 1 %s %s" % (enc(d + b"/" + nm), dl), "errloc", "dump 1"]
-        sc = Scenario(cmds, [False] * len(cmds), tags=("cwd",))
+        sc = Scenario(cmds, [False] * k + [True] * (len(cmds) - k), tags=("cwd",))       # the model follows chdir (CwdModel.respell)
         sc.pairs = pairs
         out.append(sc)
     out.append(Scenario(["errstring %d" % i for i in range(0, 27)] + ["errstring 1000"], tags=("messages",)))
